@@ -72,6 +72,23 @@ func (w *World) oracleC06(pre *Snapshot, op Op, res *StepResult, post *Snapshot)
 							w.vio("C06", "real allocation %s is not on node %s after the shim confirmed the replacement", real.Key, got.Node)
 						}
 					}
+					// queue usage reflects the real allocation: the leaf queue of the application reports exactly what its
+					// applications hold once the swap is confirmed (judged only when that was so before the confirmation)
+					sumOf := func(s *Snapshot, q *QueueSnap) Res {
+						sum := Res{}
+						for _, id := range q.Apps {
+							if a := s.Apps[id]; a != nil {
+								sum.AddIn(a.Allocated)
+								sum.AddIn(a.Placeholder)
+							}
+						}
+						return sum
+					}
+					if pq, q := pre.Queues[app.Queue], post.Queues[app.Queue]; pq != nil && q != nil && len(q.Children) == 0 && len(pq.Children) == 0 && pq.Allocated.Eq(sumOf(pre, pq)) {
+						if want := sumOf(post, q); !q.Allocated.Eq(want) {
+							w.vio("C06", "queue %s reports allocated %s after the replacement of %s by %s was confirmed, its applications hold %s", app.Queue, q.Allocated, op.Key, real.Key, want)
+						}
+					}
 					// usage reflects the real allocation, never more than before (unless the RM resized the real one meanwhile)
 					if real.Res.LEq(ph.Res) {
 						for _, nid := range []string{ph.Node, real.Node} {
